@@ -27,8 +27,9 @@ EXPLANATION = (
 def run(ctx: Ctx) -> None:
     from ..rules import echelon as _echelon
     _echelon.arm(ctx)
-    from .c11 import rule_inverse_blocks
+    from .c11 import rule_inverse_blocks, rule_block_conditions
     rule_inverse_blocks(ctx)
+    rule_block_conditions(ctx)
     from ..rules import memo as _memo
     _memo.rule_memo_sound(ctx, ['graphiq/solvers/time_reversed_solver.py', 'graphiq/backends/stabilizer/functions/stabilizer.py'])
     _memo.rule_falsy_zero(ctx, ['graphiq/solvers/time_reversed_solver.py', 'graphiq/backends/stabilizer/functions/stabilizer.py'])
